@@ -323,6 +323,19 @@ def mmap_open_rule_as(ctx, R):
 
 
 
+def counts_each_item(fv, loop):
+    """the loop body counts its items: an unconditional `c += 1`, or `c = idx + 1` with idx the enumerate index"""
+    it = fv.term(loop["iter"])
+    item = ("item", it)
+    for a in walk(loop["body"]):
+        if a.get("k") == "assignop" and a["op"] == "+=" and fv.term(a["r"]) == L(1) and not fv.guards_within(a, loop):
+            return True
+        if a.get("k") == "assign" and it[0] == "call" and it[1].endswith("Iterator::enumerate") \
+                and poly(fv.term(a["r"])) == poly(mk_bin("+", ("proj", 0, item), L(1))) and not fv.guards_within(a, loop):
+            return True
+    return False
+
+
 def stats_every_record(ctx, rule):
     """the sizing pass counts every record the iterator will deliver: seq_stats loops are branch-free"""
     fv = ctx.need(rule, "ktio::seq::Sequences::seq_stats")
@@ -330,10 +343,10 @@ def stats_every_record(ctx, rule):
         return
     loops = [l for l in fv.nodes if l.get("k") == "for"]
     bad = [x for l in loops for x in walk(l["body"]) if x.get("k") in ("if", "match", "continue", "break", "ret")]
-    counts = [a for l in loops for a in walk(l["body"]) if a.get("k") == "assignop" and a["op"] == "+=" and fv.term(a["r"]) == L(1)]
-    ctx.check(rule, "seq_stats:counts_every_record", len(loops) == 2 and not bad and len(counts) == 2,
+    counted = [l for l in loops if counts_each_item(fv, l)]
+    ctx.check(rule, "seq_stats:counts_every_record", len(loops) == 2 and not bad and len(counted) == 2,
               "seq_stats counts each record of both formats unconditionally",
               "seq_stats skips or conditionally counts records (%s): seq_count would differ from the number of records the "
               "iterator delivers, so the mapped file is sized for fewer/more rows than are written"
-              % ("`%s` in the counting loop" % bad[0].get("k") if bad else "%d loops / %d increments" % (len(loops), len(counts))),
+              % ("`%s` in the counting loop" % bad[0].get("k") if bad else "%d loops / %d counting" % (len(loops), len(counted))),
               line_of(bad[0]) if bad else fv.fn["sp"])
